@@ -256,6 +256,11 @@ pub fn exec_impl(op: Op) -> Res {
                 let n = r(h.read(&mut b4))?;
                 log.push(n as u8);
                 log.extend_from_slice(&b4[..n]);
+                // shrinking below the cursor does not move it: the next write leaves a hole
+                r(h.set_len(1))?;
+                log.push(r(h.stream_position())? as u8);
+                log.push(r(h.write(b"w"))? as u8);
+                log.push(r(h.stream_position())? as u8);
                 Res::Bytes(log)
             }
             Op::AppendCursor(f) => {
@@ -383,8 +388,14 @@ pub fn exec_model(m: &mut Model, op: Op) -> Result<Res, Errc> {
             cur -= 2;
             log.push(cur as u8);
             let b = m.read_at(p, cur, 4)?;
+            cur += b.len() as u64;
             log.push(b.len() as u8);
             log.extend_from_slice(&b);
+            m.set_len(p, 1)?;
+            log.push(cur as u8);
+            log.push(m.write_at(p, cur, b"w")? as u8);
+            cur += 1;
+            log.push(cur as u8);
             Res::Bytes(log)
         }
         Op::AppendCursor(f) => {
